@@ -5,6 +5,7 @@
 -/
 import Generated.Facts
 import Proofs.Expect
+import Xsel.Axes
 
 namespace Xsel.Gen
 open Xsel
@@ -87,6 +88,50 @@ def coreFunctions : List (String × List Nat) :=
 theorem builtins_agree :
     (coreFunctions.all fun f => Generated.builtins.any fun b => b.1 == f.1 && f.2.all (fun k => b.2.contains k)) = true := by
   decide +kernel
+
+/-- the axes in the order of their names, with the selector `execAxisName` must call and the accessor
+    or per-node collector that selector must use (the Lean `Model.axis` has the same twelve cases;
+    `self` needs no selector) -/
+def axisTable : List (Axis × String × String × String) :=
+  [(.ancestor, "ancestor", "selectAncestor", "appendAncestors"),
+   (.ancestorOrSelf, "ancestor-or-self", "selectAncestorOrSelf", "appendAncestors"),
+   (.attribute, "attribute", "selectAttributes", "Attributes()"),
+   (.child, "child", "selectChild", "Children()"),
+   (.descendant, "descendant", "selectDescendant", "appendDescendant"),
+   (.descendantOrSelf, "descendant-or-self", "selectDescendantOrSelf", "appendDescendant"),
+   (.following, "following", "selectFollowing", "appendFollowing"),
+   (.followingSibling, "following-sibling", "selectFollowingSibling", "appendFollowingSibling"),
+   (.namespace, "namespace", "selectNamespace", "Namespaces()"),
+   (.parent, "parent", "selectParent", "Parent()"),
+   (.preceding, "preceding", "selectPreceding", "appendPreceding"),
+   (.precedingSibling, "preceding-sibling", "selectPrecedingSibling", "appendPrecedingSibling")]
+
+/-- **axis_dispatch_agrees** — `execAxisName` maps every axis name to the selector the model's
+    `Model.axis` case for that axis transcribes -/
+theorem axis_dispatch_agrees :
+    Generated.axisDispatch = axisTable.map (fun r => (r.2.1, r.2.2.1)) := by decide +kernel
+
+/-- **selector_cleanup_agrees** — every selector collects with the expected accessor/collector and
+    returns through `cleanupBackwardAxis` exactly for the reverse axes (`Axis.isReverse`, the
+    direction the C01/C03 theorems are stated with), `cleanupForwardAxis` otherwise -/
+theorem selector_cleanup_agrees :
+    Generated.selectorShape = axisTable.map (fun r =>
+      (r.2.2.1, r.2.2.2, if r.1.isReverse then "cleanupBackwardAxis" else "cleanupForwardAxis")) := by
+  decide +kernel
+
+/-- the builtin library with the exact argument counts each function accepts (lenient ones included:
+    `concat`, `last`, `position` do not check their argument count) -/
+def builtinTable : List (String × List Nat) :=
+  [("boolean", [1]), ("ceiling", [1]), ("concat", [0, 1, 2, 3, 4]), ("contains", [2]), ("count", [1]), ("false", [0]),
+   ("floor", [1]), ("lang", [1]), ("last", [0, 1, 2, 3, 4]), ("local-name", [0, 1]), ("name", [0, 1]),
+   ("namespace-uri", [0, 1]), ("normalize-space", [0, 1]), ("not", [1]), ("number", [0, 1]),
+   ("position", [0, 1, 2, 3, 4]), ("round", [1]), ("starts-with", [2]), ("string", [0, 1]), ("string-length", [0, 1]),
+   ("substring", [2, 3]), ("substring-after", [2]), ("substring-before", [2]), ("sum", [1]), ("translate", [3]),
+   ("true", [0])]
+
+/-- **builtins_table_agree** — the function library is exactly the one `Xsel.builtin` models, with
+    the same accepted argument counts -/
+theorem builtins_table_agree : Generated.builtins = builtinTable := by decide +kernel
 
 def dominated (g e : String × Nat × Nat × Nat × Nat × Nat × Nat) : Bool :=
   g.1 == e.1 && g.2.1 ≤ e.2.1 && g.2.2.1 ≤ e.2.2.1 && g.2.2.2.1 ≤ e.2.2.2.1 && g.2.2.2.2.1 ≤ e.2.2.2.2.1
